@@ -24,7 +24,7 @@ NAMES = ["alpha", "beta", "gamma", "delta", "eps", "zeta", "eta", "theta", "item
 GROUPS = ["grp", "opt", "model", "data", "g2"]
 
 
-def gen_spec(rng, nargs=(1, 5), depth=3, profile="noany", nested=0.4, cfg=True, mode="yaml", defaults=0.6, sub=0.0, env=False, hostile=0.25):
+def gen_spec(rng, nargs=(1, 5), depth=3, profile="noany", nested=0.4, cfg=True, mode="yaml", defaults=0.6, sub=0.0, env=False, hostile=0.25, _level=1):
     used = set()
     args = []
     for _ in range(rng.randrange(nargs[0], nargs[1] + 1)):
@@ -54,8 +54,10 @@ def gen_spec(rng, nargs=(1, 5), depth=3, profile="noany", nested=0.4, cfg=True, 
         choices = {}
         for sname in rng.sample(["fit", "test", "run", "a"], rng.choice([1, 2, 3])):
             # a subcommand may have no options at all (its section is then empty)
-            choices[sname] = gen_spec(rng, (0, 3) if rng.random() < 0.3 else (1, 3), depth, profile, nested / 2, cfg=rng.random() < 0.3, mode=mode, defaults=defaults, sub=0.0, hostile=hostile)
-        spec["sub"] = dict(required=rng.random() < 0.7, dest="subcommand", choices=choices)
+            # (a subcommand may have subcommands of its own: one more level, stored under the key "cmd")
+            few = (0, 0) if _level == 2 and rng.random() < 0.4 else ((0, 3) if rng.random() < 0.3 else (1, 3))
+            choices[sname] = gen_spec(rng, few, depth, profile, nested / 2, cfg=rng.random() < 0.3, mode=mode, defaults=defaults, sub=1.0 if _level == 1 and rng.random() < 0.3 else 0.0, hostile=hostile, _level=_level + 1)
+        spec["sub"] = dict(required=rng.random() < 0.7, dest="subcommand" if _level == 1 else "cmd", choices=choices)
     return spec
 
 
@@ -115,7 +117,7 @@ def _usable_default(t, d):
     return strict(d, t) is None
 
 
-def build(spec, exit_on_error=False, **parser_kw):
+def build(spec, exit_on_error=False, _defer_sub=False, **parser_kw):
     kw = dict(exit_on_error=exit_on_error, parser_mode=spec.get("mode", "yaml"), prog=spec.get("prog", "app"))
     if spec.get("env"):
         kw["default_env"] = True
@@ -134,12 +136,19 @@ def build(spec, exit_on_error=False, **parser_kw):
         if a.get("enable_path"):
             akw["enable_path"] = True
         p.add_argument("--" + a["name"], **akw)
-    if spec.get("sub"):
-        sc = p.add_subcommands(required=spec["sub"]["required"], dest=spec["sub"].get("dest", "subcommand"))
-        for name, sspec in spec["sub"]["choices"].items():
-            sp = build(sspec, exit_on_error=exit_on_error, **{k: v for k, v in parser_kw.items() if k in ("parser_mode",)})
-            sc.add_subcommand(name, sp)
+    if spec.get("sub") and not _defer_sub:
+        _add_subcommands(p, spec, exit_on_error, parser_kw)
     return p
+
+
+def _add_subcommands(p, spec, exit_on_error, parser_kw):
+    """levels have to be added in level order: a sub-parser is attached before it gets subcommands of its own"""
+    sc = p.add_subcommands(required=spec["sub"]["required"], dest=spec["sub"].get("dest", "subcommand"))
+    for name, sspec in spec["sub"]["choices"].items():
+        sp = build(sspec, exit_on_error=exit_on_error, _defer_sub=True, **{k: v for k, v in parser_kw.items() if k in ("parser_mode",)})
+        sc.add_subcommand(name, sp)
+        if sspec.get("sub"):
+            _add_subcommands(sp, sspec, exit_on_error, parser_kw)
 
 
 def gen_settings(rng, spec, fill=0.7, hostile=0.25):
